@@ -108,6 +108,8 @@ def generate(rng, tier, index):
                 st["c"] = rng.choice([0.5, -1.0, 2.0, 0.25])
             if kind in ("add", "preload"):
                 st["vals"] = [rng.randint(-16, 16) / 8.0 for _ in range(numel(shape[leaf]))]
+            if kind == "preload":
+                st["noncontig"] = rng.random() < 0.5
             steps.append(st)
     # only the last call may free the graph
     return {"spec": spec, "roles": roles, "steps": steps, "sched": gen_sched(rng, spec)}
@@ -196,6 +198,10 @@ def execute(scn):
                 exp_tol[n] = exp_tol[n] + tol + 4 * eps * np.abs(exp_grad[n])
             if ambiguous:
                 exp_tol[n] = exp_tol[n] + np.inf
+        # (1b) "add to an existing .grad instead of replacing it": the object the user may hold keeps following
+        for n in requested:
+            if before[n] is not None and after[n] is not None and (before[n][0] != after[n][0] or before[n][2] != after[n][2]):
+                viols.append({"clause": "existing_grad_replaced", "step": si, "details": {"param": n, "same_object": before[n][0] == after[n][0], "same_memory": before[n][2] == after[n][2], "was_contiguous": bool(world.t[n].grad.is_contiguous())}, "key": {}})
         # (3) unrequested tensors: same object, same bytes
         for n in world.names:
             if n in requested:
@@ -261,7 +267,10 @@ def execute(scn):
                 x.grad = None
                 exp_grad[leaf], exp_tol[leaf] = None, None
             elif op == "preload":
-                x.grad = torch.tensor(st["vals"], dtype=world.dtype).reshape(x.shape).clone()
+                g0 = torch.tensor(st["vals"], dtype=world.dtype).reshape(x.shape).clone()
+                if g0.ndim >= 2 and st.get("noncontig"):
+                    g0 = g0.transpose(0, -1).contiguous().transpose(0, -1)  # e.g. a strided window of a flat buffer
+                x.grad = g0
                 exp_grad[leaf] = np.array(st["vals"], dtype=np.float64).reshape(tuple(x.shape))
                 exp_tol[leaf] = np.zeros(tuple(x.shape))
             elif x.grad is not None:
